@@ -24,9 +24,9 @@ import (
 	dbm "github.com/cosmos/cosmos-db"
 
 	"cosmossdk.io/log"
-	"github.com/cosmos/cosmos-sdk/baseapp"
 	"cosmossdk.io/store/rootmulti"
 	storetypes "cosmossdk.io/store/types"
+	"github.com/cosmos/cosmos-sdk/baseapp"
 
 	"github.com/bianjieai/tibc-go/simapp"
 )
@@ -253,9 +253,9 @@ func recordedCodes(blocks []recBlock) [][]string {
 // ---- histories on disk: replay in another process --------------------------------------------
 
 type detFile struct {
-	Init      string                 `json:"init"`      // hex(proto(RequestInitChain))
-	Snapshot  map[string][][2]string `json:"snapshot"`  // store -> [hex key, hex value]
-	Blocks    []string               `json:"blocks"`    // hex(proto(RequestFinalizeBlock))
+	Init      string                 `json:"init"`     // hex(proto(RequestInitChain))
+	Snapshot  map[string][][2]string `json:"snapshot"` // store -> [hex key, hex value]
+	Blocks    []string               `json:"blocks"`   // hex(proto(RequestFinalizeBlock))
 	AppHashes []string               `json:"app_hashes"`
 	TxResults [][]string             `json:"tx_results"`
 }
